@@ -571,6 +571,17 @@ func (i *interpreter) callSSA(caller *frame, callpos token.Pos, fn *ssa.Function
 		if fn.Blocks == nil {
 			i.buildFor(fn)
 		}
+		if fn.Blocks == nil && fn.Pkg != nil && fn.Pkg.Pkg.Path() == "math/big" {
+			// assembly kernels of math/big have pure Go twins (arith.go: addVV_g, shlVU_g, ...)
+			if g := fn.Pkg.Func(fn.Name() + "_g"); g != nil {
+				if g.Blocks == nil {
+					i.buildFor(g)
+				}
+				if g.Blocks != nil {
+					fn = g
+				}
+			}
+		}
 		if fn.Blocks == nil {
 			abandon("no code for function %s", name)
 		}
